@@ -154,6 +154,43 @@ class C29(Prop):
     PROPS_FILE = "Props/C29.v"
     CORR_MODULE = "Cwl.Corr"
     LEVEL = "translation_validation"
+    LEVEL_TEXT = ("Translation validation, not a proof of the claim: whole-language equivalence of StreamFlow's CWL "
+                  "translation with the CWL semantics is NOT proved. Every run: generated mini-CWL programs (ExpressionTool "
+                  "steps from a fixed 13-tool library; scatter with the three methods; linkMerge; pickValue; when; "
+                  "valueFrom; defaults; nested subworkflows; int/string/boolean/null/array/record values) are rendered as "
+                  "CWL v1.2 documents and run by StreamFlow's cwl-runner entry point, by cwltool 3.2 and by the Gallina "
+                  "reference interpreter Cwl/Sem.v evaluated with vm_compute inside Coq; output objects are compared "
+                  "including array order, nulls and success/failure. Theorems (closed under the global context) cover only "
+                  "value-level operators: the models of ListMergeCombinator/_flatten_token_list, First/Only/AllNonNull, "
+                  "the _create_list_merger chain and CWLEmptyScatterConditionalStep compute the specification's "
+                  "merge_nested / merge_flattened / pickValue / empty-scatter values on stated domains (several only "
+                  "`_partial`), five `_refuted` theorems give witnesses where the faithful operator model deviates from the "
+                  "specification, and flat_crossproduct = leaves of nested_crossproduct in the specification. The operator "
+                  "models are tied to /repo by running the real operators on generated token trees.")
+    LEVEL_NOTE = ("Not proved: the translator (token network, scatter/gather wiring, conditional and default steps), the "
+                  "engine, JavaScript evaluation, type checking; C29_scatter_network of the design is not stated. Not "
+                  "exercised: File/Directory values, CommandLineTools, loops, CWL v1.0/v1.1/v1.3. Trusted: Coq kernel + "
+                  "vm_compute; Cwl/Sem.v as a reading of the CWL v1.2 text (cross-checked against cwltool on every run); "
+                  "cwltool as the reference; node.js; the Python generator/renderer. No axioms.")
+    TECHNIQUE = ("three-way differential (StreamFlow / cwltool / Gallina interpreter evaluated in Coq) + Coq proofs of "
+                 "operator laws + vm_compute correspondence of operator models against the Python operators")
+    RULE = ("programs: 1..6 steps built goal-directed so that every link is well-typed (workflow inputs created on "
+            "demand), each step a tool of the library or a generated subworkflow, inputs bound by direct link / scatter / "
+            "merge_nested / merge_flattened / pickValue over optional sources / default / valueFrom, optional `when`; "
+            "rare classes tied to known deviations (duplicate source, single-source list with linkMerge, dangling step) "
+            "are generated with probability <= 6% each. operator cases: token trees of depth <= 3 with tags as build_token "
+            "(same tag), GatherStep (t.i in order), depth-2 gather (t.i.j) or shuffled, through ListMergeCombinator."
+            "combine, the three pickValue transformers, ListToElement, CWLEmptyScatterConditionalStep. Every case is "
+            "non-trivial; distinct = distinct canonical JSON.")
+    TRUSTED = ("Cwl/Sem.v is a hand-written reading of the CWL v1.2 Workflow text; agreement with cwltool is checked on "
+               "every generated program, nothing more",
+               "Cwl/Ops.v is hand-written; tied to the Python operators only by the operator cases",
+               "cwltool 3.2 is taken as the reference implementation; node.js evaluates the JavaScript of both runners",
+               "program generator, CWL renderer and output canonicalisation (Python)")
+    ASSUMPTIONS = ("ints stay far below 2^31 (JavaScript numbers and CWL int agree with Z)",
+                   "strings are printable ASCII",
+                   "StreamFlow runs with the local deployment and an in-memory database (--streamflow-file)",
+                   "a disagreement counts only if it is reproduced by a second, sequential run of both runners")
     MAX_WORKERS = 8
     CASE_TIMEOUT = 300
     SHARD_TIMEOUT = 3000
@@ -166,7 +203,8 @@ class C29(Prop):
         ops = [self._gen_op(rng) for _ in range(nops)]
         # interleave, so that the framework's round-robin sharding gives every worker its share of the
         # (seconds-long) program runs
-        cases, step = [], max(1, len(ops) // max(1, len(progs)))
+        cases, step = [], max(2, len(ops) // max(1, len(progs)))
+        step -= step % 2          # stride step+1 is odd: coprime with the number of shards
         for i, pr in enumerate(progs):
             cases.append(pr)
             cases.extend(ops[i * step:(i + 1) * step])
@@ -314,6 +352,14 @@ class C29(Prop):
         raise ValueError(f)
 
     def _run_prog(self, case):
+        """Both runners on one program.  A disagreement (or a crash-like failure of either runner) must be
+        reproducible: it is re-run once, sequentially, and the second observation is the one reported."""
+        obs = self._run_once(case, parallel=True)
+        if self.oracle(case, obs) is None and "fail" not in obs["ref"] and "fail" not in obs["sf"]:
+            return obs
+        return self._run_once(case, parallel=False)
+
+    def _run_once(self, case, parallel):
         d = tempfile.mkdtemp(prefix="sfv-c29-", dir=SCRATCH)
         try:
             with open(os.path.join(d, "wf.cwl"), "w") as f:
@@ -330,9 +376,13 @@ class C29(Prop):
                                   stderr=subprocess.PIPE, text=True)
             env2 = dict(os.environ, TMPDIR=d)
             env2.pop("PYTHONPATH", None)
-            p2 = subprocess.Popen(["/venv/bin/cwltool", "--no-container", "--outdir", "o-ref", "wf.cwl", "job.json"],
+            if not parallel:
+                o1, e1 = p1.communicate()
+            p2 = subprocess.Popen(["/venv/bin/cwltool", "--no-container", "--disable-js-validation", "--eval-timeout",
+                                   "900", "--outdir", "o-ref", "wf.cwl", "job.json"],
                                   cwd=d, env=env2, stdout=subprocess.PIPE, stderr=subprocess.PIPE, text=True)
-            o1, e1 = p1.communicate()
+            if parallel:
+                o1, e1 = p1.communicate()
             o2, e2 = p2.communicate()
 
             def parse(rc, out):
@@ -409,10 +459,20 @@ class C29(Prop):
     def signature(self, c, o, clause):
         if c["f"] == "prog":
             fs = sorted(features(c) & {"dup-source", "single-source-list-linkmerge", "dangling-step"})
-            return clause + "/" + ("+".join(fs) if fs else "plain")
+            sig = clause + "/" + ("+".join(fs) if fs else "plain")
+            if clause == "sf-fails-ref-succeeds":
+                sig += "/" + errclass(o["sf"].get("why", ""))
+            if clause == "output-differs":
+                sig += "/" + diffclass(c, o)
+            return sig
         return f"{c['f']}/{clause}"
 
     def shrink(self, c):
+        # every candidate costs two runner invocations: at most a handful per round
+        import itertools
+        return list(itertools.islice(self._shrink(c), 4))
+
+    def _shrink(self, c):
         if c["f"] != "prog":
             return
         wf = c["wf"]
@@ -454,13 +514,61 @@ def _canon(x):
     return json.dumps(x, sort_keys=True)
 
 
+ERRCLASSES = [
+    ("is not optional", "token-not-optional"),
+    ("No suitable token processors", "no-suitable-token-processor"),
+    ("is incompatible", "static-checker-incompatible"),
+    ("ValidationException", "static-checker-incompatible"),
+    ("All sources are null", "all-sources-null"),
+    ("Expected only one source", "only-one-source"),
+    ("WorkflowDefinitionException", "definition-exception"),
+    ("FAILED Workflow execution", "failed-workflow-execution"),
+]
+
+
+def errclass(why):
+    for pat, name in ERRCLASSES:
+        if pat in why:
+            return name
+    return "other"
+
+
+def diffclass(c, o):
+    """Shape of an output difference: which way the arrays differ."""
+    ref, sf = o["ref"]["ok"], o["sf"]["ok"]
+    for k in sorted(set(ref) | set(sf)):
+        a, b = ref.get(k), sf.get(k)
+        if _canon(a) == _canon(b):
+            continue
+
+        def flat(x):
+            return [z for y in x for z in flat(y)] if isinstance(x, list) else [x]
+        if isinstance(a, list) and isinstance(b, list):
+            fa, fb = flat(a), flat(b)
+            if _canon(fa) == _canon(fb):
+                return "same-elements-different-nesting"
+            if sorted(map(_canon, fa)) == sorted(map(_canon, fb)):
+                return "same-elements-different-order"
+            if len(fb) < len(fa):
+                return "elements-missing"
+            return "elements-differ"
+        return "value-differs"
+    return "none"
+
+
 def _why(err):
     import re
     lines = [re.sub(r"\x1b\[[0-9;]*m", "", ln) for ln in err.splitlines()]
     lines = [re.sub(r"^\d{4}-\d\d-\d\d \d\d:\d\d:\d\d\.\d+\s+", "", ln) for ln in lines]
-    keep = [ln.strip() for ln in lines if ("ERROR" in ln or "Exception" in ln or "rror:" in ln) and "Traceback" not in ln]
+    keep = []
+    for i, ln in enumerate(lines):
+        if ("ERROR" in ln or "Exception" in ln or "rror:" in ln or "is incompatible" in ln) and "Traceback" not in ln:
+            keep.append(ln.strip())
+            if ln.rstrip().endswith(":") and i + 1 < len(lines):
+                keep.append(lines[i + 1].strip())
+    keep = [k for k in keep if k]
     keep = [re.sub(r"_:[0-9a-f-]{36}", "_:id", re.sub(r"/var/tmp/sfv-c29-[A-Za-z0-9_]+", "<dir>", k)) for k in keep]
-    return " | ".join(keep[:3])[:400]
+    return " | ".join(keep[:4])[:500]
 
 
 PROP = C29()
